@@ -624,22 +624,52 @@ def commit_only_after_success(fn, commit, movers):
 
 # ------------------------------------------------------------------ SKIPARMS
 
+def skip_family(c):
+    """skip_until and the functions of pest::position it reaches through helpers (depth <= 3), with their call sites."""
+    su = c.fn(POSITION + "::skip_until")
+    if su is None:
+        return None, {}, {}
+
+    def in_module(f):
+        return f is not None and f.get("body") is not None and (
+            f.get("impl_self") == POSITION or f["path"].startswith("pest::position::")) and "::tests::" not in f["path"]
+    reach, frontier = {su["path"]: su}, [su]
+    callers = {}
+    for _ in range(3):
+        nxt = []
+        for f in frontier:
+            for (cal, n) in hirq.call_sites(f["body"]):
+                g = c.fn(cal) if isinstance(cal, str) else None
+                if in_module(g):
+                    callers.setdefault(g["path"], []).append((f, n))
+                    if g["path"] not in reach:
+                        reach[g["path"]] = g
+                        nxt.append(g)
+        frontier = nxt
+    return su, reach, callers
+
+
+def scans_range(f):
+    return [x for x in walk(f["body"]) if kind(x) == "Struct" and x.get("path", "").endswith("ops::range::Range")
+            and any(y["name"] == "end" and kind(peel(y["e"])) == "MethodCall" and peel(y["e"])["m"] == "len" for y in x["fields"])]
+
+
 def skiparms(rep, c, sfx):
     r = rep.rule("C03.SKIPARMS" + sfx, 3,
                  "each memchr arm [s1..sk] of Position::skip_until guards !si.is_empty() for every si, passes "
                  "si.as_bytes()[0] for every si exactly once and tests starts_with(si) for every si; any other "
                  "shape goes to the basic search")
-    fn = c.fn(POSITION + "::skip_until")
-    if fn is None:
+    su, reach, _callers = skip_family(c)
+    if su is None:
         r.lost("Position::skip_until")
         return
-    lets = hirq.lets(fn["body"])
-    ms = [n for n in walk(fn["body"]) if kind(n) == "Match" and n.get("src") == "match"
-          and any(kind(a["pat"]) == "PSlice" for a in n["arms"])]
-    if len(ms) != 1:
+    hosts = [(f, n) for f in reach.values() for n in walk(f["body"]) if kind(n) == "Match" and n.get("src") == "match"
+             and any(kind(a["pat"]) == "PSlice" for a in n["arms"])]
+    if len(hosts) != 1:
         r.lost("slice-pattern match in skip_until (memchr configuration)")
         return
-    m = ms[0]
+    fn, m = hosts[0]
+    lets = hirq.lets(fn["body"])
     for arm in m["arms"]:
         pat = arm["pat"]
         if kind(pat) != "PSlice":
@@ -647,7 +677,8 @@ def skiparms(rep, c, sfx):
             calls = [callee(n) for n in walk(arm["body"]) if kind(n) in ("Call", "MethodCall")]
             # a search function of the position module (method of Position or free function next to it) with a loop
             basic = [x for x in calls if isinstance(x, str) and (x.startswith(POSITION + "::") or x.startswith("pest::position::"))
-                     and c.fn(x) is not None and any(kind(y) == "Loop" for y in walk(c.fn(x)["body"]))]
+                     and c.fn(x) is not None and (any(kind(y) == "Loop" for y in walk(c.fn(x)["body"]))
+                                                  or scans_range(c.fn(x)))]
             r.instance("arm:_", where(arm["body"]), "defers to %s" % basic)
             if not basic:
                 r.violation("arm:_", where(arm["body"]), "the fallback arm does not use the basic search")
@@ -712,7 +743,25 @@ def skiparms(rep, c, sfx):
         for n in walk(arm["body"]):
             if kind(n) == "MethodCall" and n["m"] == "starts_with" and n["args"]:
                 lid = hirq.local_id(n["args"][0])
-                if lid is not None:
+                if lid is None:
+                    roots = [hirq.local_id(y) for y in walk(n["args"][0]) if kind(y) == "Path" and y.get("res") == "local"]
+                    lid = roots[0] if len(roots) == 1 else None
+                if lid is not None and lid not in binds:
+                    # `[s1, s2, s3].iter().any(|s| start.starts_with(s))`: the needle is the closure parameter of a
+                    # search over an array of needles
+                    actx = hirq.Ctx(fn)
+                    for (p_, k_, i_) in actx.ancestors(n):
+                        if kind(p_) == "Closure" and any(b_[0] == lid for q_ in p_.get("params", []) for b_ in hirq.pat_bindings(q_)):
+                            par = actx.parent.get(id(p_))
+                            if par and kind(par[0]) == "MethodCall" and par[0]["m"] in ("any", "find", "position"):
+                                for y in walk(par[0]["recv"]):
+                                    if kind(y) == "Array":
+                                        for el in y["elems"]:
+                                            el_id = hirq.local_id(el)
+                                            if el_id is not None:
+                                                sw.add(el_id)
+                            break
+                elif lid is not None:
                     sw.add(lid)
         if sw != set(binds):
             r.violation("%s:starts_with" % key, where(arm["body"]),
@@ -728,51 +777,99 @@ def skipbasic(rep, c, sfx):
     if su is None:
         r.lost("Position::skip_until")
         return
-    # the basic search: the Position method reachable from skip_until that contains no memchr call and a for loop
-    cands = []
-    for (cal, n) in hirq.call_sites(su["body"]):
-        f = c.fn(cal) if isinstance(cal, str) else None
-        if f is not None and (f.get("impl_self") == POSITION or f["path"].startswith("pest::position::")) and not any(
-                isinstance(callee(x), str) and callee(x).startswith("memchr::") for x in walk(f["body"])) \
-                and any(kind(x) == "Loop" for x in walk(f["body"])):
-            cands.append(f)
+    # the basic search: the function of pest::position reachable from skip_until (through helpers) that contains no
+    # memchr call and scans a range - with a for loop or with an iterator chain over the range
+    def in_module(f):
+        return f is not None and f.get("body") is not None and (
+            f.get("impl_self") == POSITION or f["path"].startswith("pest::position::")) and "::tests::" not in f["path"]
+
+    def has_memchr(f):
+        return any(isinstance(callee(x), str) and callee(x).startswith("memchr::") for x in walk(f["body"]))
+
+    def ranges_of(f):
+        return [x for x in walk(f["body"]) if kind(x) == "Struct" and x.get("path", "").endswith("ops::range::Range")
+                and any(y["name"] == "end" and kind(peel(y["e"])) == "MethodCall" and peel(y["e"])["m"] == "len" for y in x["fields"])]
+    reach, frontier = {su["path"]: su}, [su]
+    callers = {}
+    for _ in range(3):
+        nxt = []
+        for f in frontier:
+            for (cal, n) in hirq.call_sites(f["body"]):
+                g = c.fn(cal) if isinstance(cal, str) else None
+                if in_module(g):
+                    callers.setdefault(g["path"], []).append((f, n))
+                    if g["path"] not in reach:
+                        reach[g["path"]] = g
+                        nxt.append(g)
+        frontier = nxt
+    cands = [f for f in reach.values() if f is not su and not has_memchr(f) and ranges_of(f)]
+    if not cands and not has_memchr(su) and ranges_of(su):
+        cands = [su]
     if not cands:
-        loops_here = [x for x in walk(su["body"]) if kind(x) == "Loop"]
-        if loops_here and not any(isinstance(callee(x), str) and callee(x).startswith("memchr::") for x in walk(su["body"])):
-            cands = [su]
-    if not cands:
-        r.lost("memchr-free search loop reachable from skip_until")
+        r.lost("memchr-free search over a range reachable from skip_until")
         return
     fn = cands[0]
-    outer = [x for x in walk(fn["body"]) if kind(x) == "Loop" and x.get("src") == "ForLoop"]
-    if not outer:
-        r.lost("scanning for-loop in " + fn["path"])
-        return
-    lp = outer[0]
-    r.instance(fn["path"].split("::")[-1], where(lp))
-    for x in walk(lp["body"]):
-        if kind(x) == "Break" and x.get("target") == lp.get("id") and not hirq.is_desugar(x):
-            r.violation("break", where(x), "the scanning loop of %s stops at this `break` before the end of the input: "
-                        "needles that start later are never found (e.g. after a non-ASCII character when the offset "
-                        "is inside it)" % fn["name"])
-    # range start..end
-    rng = [x for x in walk(fn["body"]) if kind(x) == "Struct" and x.get("path", "").endswith("ops::range::Range")]
+
+    def is_cursor(f, e, depth=0):
+        """is e the cursor: self.pos, or a parameter that receives the cursor at every call site"""
+        e = peel(e)
+        if kind(e) == "Field" and e["name"] == "pos" and "Position" in e.get("bty", ""):
+            return True
+        if kind(e) == "Path" and e.get("res") == "local" and depth < 3:
+            pidx = [i for i, p in enumerate(f["params"]) if p.get("k") == "PBind" and p["id"] == e["id"]]
+            sites = callers.get(f["path"], [])
+            if pidx and sites:
+                return all(pidx[0] < len(hirq.call_args(n)) and is_cursor(g, hirq.call_args(n)[pidx[0]], depth + 1)
+                           for (g, n) in sites)
+        return False
+    rng = ranges_of(fn)
     ok = False
     for x in rng:
         f_ = {y["name"]: y["e"] for y in x["fields"]}
-        s, e = peel(f_.get("start", {})), peel(f_.get("end", {}))
-        if kind(s) == "Field" and s["name"] == "pos" and kind(e) == "MethodCall" and e["m"] == "len":
+        if is_cursor(fn, f_.get("start", {})):
             ok = True
-        # the search as a free function over (input, pos, ..): the start is the parameter that receives self.pos
-        if kind(s) == "Path" and s.get("res") == "local" and kind(e) == "MethodCall" and e["m"] == "len" and fn is not su:
-            pidx = [i for i, p in enumerate(fn["params"]) if p.get("k") == "PBind" and p["id"] == s["id"]]
-            sites = [n for (cal, n) in hirq.call_sites(su["body"]) if cal == fn["path"]]
-            if pidx and sites and all(
-                    pidx[0] < len(hirq.call_args(n)) and kind(peel(hirq.call_args(n)[pidx[0]])) == "Field"
-                    and peel(hirq.call_args(n)[pidx[0]])["name"] == "pos" for n in sites):
-                ok = True
+    outer = [x for x in walk(fn["body"]) if kind(x) == "Loop" and x.get("src") == "ForLoop"]
+    if outer:
+        lp = outer[0]
+        r.instance(fn["path"].split("::")[-1], where(lp), "for loop")
+        for x in walk(lp["body"]):
+            if kind(x) == "Break" and x.get("target") == lp.get("id") and not hirq.is_desugar(x):
+                r.violation("break", where(x), "the scanning loop of %s stops at this `break` before the end of the input: "
+                            "needles that start later are never found (e.g. after a non-ASCII character when the offset "
+                            "is inside it)" % fn["name"])
+        site = lp
+    else:
+        # iterator form: `(pos..len).filter_map(..).find(..)` - every adaptor between the range and the consumer must
+        # pass every offset on
+        site = rng[0]
+        r.instance(fn["path"].split("::")[-1], where(site), "iterator chain")
+        ctx = hirq.Ctx(fn)
+        cur = site
+        chain = []
+        while True:
+            par = ctx.parent.get(id(cur))
+            if par is None:
+                break
+            pn, pk, pi = par
+            if kind(pn) == "MethodCall" and pk == "recv":
+                chain.append(pn["m"])
+                cur = pn
+                continue
+            if kind(pn) in ("Paren", "DropTemps", "Use") or pn.get("k") in (None,):
+                cur = pn
+                continue
+            break
+        PASS = ("filter_map", "filter", "map", "flat_map", "inspect", "into_iter", "by_ref", "peekable", "fuse", "copied",
+                "cloned", "find", "find_map", "position", "any", "all")
+        cut = [m for m in chain if m not in PASS]
+        if not any(m in ("find", "find_map", "position", "any") for m in chain):
+            r.violation("consumer", where(site), "the range of offsets is not consumed by a search (find / find_map / "
+                        "position / any): %s" % chain)
+        if cut:
+            r.violation("break", where(site), "the scan over the offsets passes through `%s`, which can drop offsets "
+                        "before the end of the input: needles that start there are never found" % ",".join(cut))
     if not ok:
-        r.violation("range", where(lp), "the scan does not range over self.pos..self.input.len()")
+        r.violation("range", where(site), "the scan does not range over self.pos..self.input.len()")
 
 
 def skipend(rep, c, sfx):
@@ -979,7 +1076,7 @@ def advance(rep, c, sfx):
 def strlen_rule(rep, c, sfx):
     """A step of `s.len()` bytes for a string parameter s is a whole number of characters of the INPUT only if the
     input was shown to hold, at the cursor, a slice of exactly that byte length ending on a character boundary."""
-    r = rep.rule("C03.STRLEN" + sfx, 2,
+    r = rep.rule("C03.STRLEN" + sfx, 1,
                  "a Position method that moves the cursor by the byte length of a string argument does so only under a "
                  "test that the input holds a slice of exactly that length at the cursor (starts_with / strip_prefix / "
                  "`get(range of that length)` / is_char_boundary): matching char by char and then stepping by the "
@@ -1034,8 +1131,25 @@ def strlen_rule(rep, c, sfx):
                 r.instance(key, where(x))
                 witness = None
                 for g in ctx.guards(x):
-                    if g[0] == "if" and g[2] is True or g[0] in ("guard", "not"):
-                        cond = g[1]
+                    if g[0] in ("if", "guard", "not"):
+                        # polarity: the write must sit where the tested expression is TRUE
+                        cond = peel(g[1])
+                        truth = True if g[0] == "guard" else (False if g[0] == "not" else g[2])
+                        hops = 0
+                        while hops < 6:
+                            if kind(cond) == "Unary" and cond["op"] == "!":
+                                cond = peel(cond["e"])
+                                truth = not truth
+                            elif kind(cond) == "Path" and cond.get("res") == "local" and cond["id"] in lets \
+                                    and lets[cond["id"]][0] is not None and kind(peel(lets[cond["id"]][0])) == "Unary":
+                                cond = peel(lets[cond["id"]][0])
+                            else:
+                                break
+                            hops += 1
+                        if kind(cond) == "Binary" and cond["op"] == "!=":
+                            truth = not truth     # `a != b` false  ==  `a == b` true
+                        if not truth:
+                            continue
                     elif g[0] == "arm":
                         cond = g[1]["scrut"]
                     elif g[0] == "let" and g[1].get("els") is not None and g[1].get("init") is not None:
